@@ -238,7 +238,7 @@ class CBuild:
         shutil.rmtree(self.dir, ignore_errors=True)
 
 
-WRAP = ["-Wl,--wrap=malloc,--wrap=calloc,--wrap=realloc,--wrap=strdup,--wrap=free,--wrap=fopen,--wrap=fclose"]
+WRAP = ["-Wl,--wrap=malloc,--wrap=calloc,--wrap=realloc,--wrap=strdup,--wrap=free,--wrap=fopen,--wrap=fdopen,--wrap=fclose"]
 
 
 def alloc_sources():
